@@ -7,7 +7,7 @@ script: `asaExec` returns `some _` only if every `line N` deletion hits the very
 insertion position exists and no duplicate entry is added (`NA.Spec.AclDev.asaExec1`).
 `asa_plan_converges` therefore contains "accepted"; `asa_pos_refines` is the position statement;
 `asaExec_nodup` says the device never holds a duplicate entry at any step.
-PAN-OS and NSX: see `NA.Props.C03` / `NA.Props.C04` (pan_* / nsx_* theorems), listed in props/C08.json.
+PAN-OS and NSX: the pan_* / nsx_* theorems of `NA.Props.C03` / `NA.Props.C04`; both modules are listed in props/C08.json, so their obligations are audited by this check as well.
 -/
 namespace NA.C08
 open NA.Acl
